@@ -198,6 +198,19 @@ func init() {
 }
 
 func init() {
+	// (*Error).Wrap / Wrapf are errors.Wrap(e, ...) with the receiver boxed into the error interface: a *Error in an
+	// interface is never the nil interface, so the result is always a non-nil error
+	for _, n := range []string{"(*cosmossdk.io/errors.Error).Wrap", "(*cosmossdk.io/errors.Error).Wrapf"} {
+		reg(n, func(fr *Frame, st *State, c *ssa.CallCommon, args []*Term) ([]*Term, bool) {
+			ex := fr.ex
+			r := ex.f.Fresh("werr", SInt)
+			ex.assume(st, ex.f.Gt(r, ex.f.Int(0)))
+			return []*Term{r}, true
+		})
+	}
+}
+
+func init() {
 	// AccAddress.String(): the bech32 text is a function of the address bytes (injectivity is not assumed)
 	reg("(github.com/cosmos/cosmos-sdk/types.AccAddress).String", func(fr *Frame, st *State, c *ssa.CallCommon, a []*Term) ([]*Term, bool) {
 		ex := fr.ex
